@@ -311,6 +311,10 @@ class C04(core.Check):
             comp = r.choice([0, 2])
             n = r.choice([1, 3, 10, 40, 150])
             pieces = [gen.content(r.choice(["random", "text"]), r.randrange(1, r.choice([30, 400, 3000])), r.random()) for _ in range(n)]
+            if i % 9 == 4:
+                # stored sizes that are exact multiples of the library's 32 KiB copy / scan buffer, and one byte either side
+                for k_ in r.sample(range(n), min(n, 3)):
+                    pieces[k_] = gen.content("random", r.choice([32768, 65536, 98304, 32767, 32769, 131072]), r.random())
             db = r.randbytes(r.choice([0, 0, 40, 600]))
             cht = r.randrange(4)
             akind = r.choice(["edit", "edit", "edit", "same", "unrelated", "absent", "other-dict", "other-hash", "other-comp", "other-comp", "superset",
@@ -350,6 +354,20 @@ class C04(core.Check):
                         d_[pa_.header_len + c_["start"] + r.randrange(c_["comp_len"])] ^= 0x10
                 A = bytes(d_)
             self._add(out, r, ctx, "p%d" % i, akind, A, B)
+        # a client with a large receive buffer (not curl's 16 KiB): the first delivery ends inside a part header, the next one carries more
+        # than a megabyte
+        for i in range(2 if self.quick else 12):
+            pieces = [gen.content("random", r.choice([100000, 131072, 120000]), r.random()) for _ in range(24)]
+            B = zckref.make_file(pieces, comp_type=0, chunk_hash_type=r.randrange(4))
+            pB = zckref.parse(B)
+            d = bytearray(B)
+            for c in pB.chunks[1:]:
+                if c["number"] % 2 == 1:
+                    a = pB.header_len + c["start"]
+                    d[a:a + c["comp_len"]] = bytes(c["comp_len"])
+            for cut in ([40], [40, 1500000], [7, 100]):
+                out.append({"name": "bigbuf%d" % i, "akind": "absent", "tkind": "partial", "A": None, "B": core.b64(B), "T": core.b64(bytes(d)), "limit": r.choice([255, -1, 127]),
+                            "style": r.choice([0, 4]), "boundary": "zckverifBOUNDARY", "frag": "cuts:" + ",".join(str(x) for x in cut), "zh": ctx["zh"]})
         # library-written pairs with automatic chunking (content-defined boundaries resynchronise after an edit)
         nlib = 3 if self.quick else 60
         for i in range(nlib):
